@@ -9,6 +9,7 @@ Not decided: delivery across real threads (mpsc contract); unknown sessions (C12
 from common import *
 import hirq
 from peval import PE, UNK, NOHOOK, Enum, known, format_pieces
+from bflow import guard_terms, show
 
 SCX = "event_io_processor::scxml_event_io_processor::"
 PROC = "<" + SCX + "ScxmlEventIOProcessor as event_io_processor::EventIOProcessor>::"
@@ -164,6 +165,27 @@ def run(ctx):
                 ok = len(er) == 1
                 detail += "; error.%s raised: %s" % (kind, ok)
             ctx.ob("R15.1", site_key(send, "target '%s'" % t), ok, send.where, detail)
+
+        # the processor's send_to_session hands every event to the executor's send_to_session (the target session's EXTERNAL queue):
+        # one such call, (session_id, event) unchanged, under no condition other than "the executor is there", no exit before it,
+        # and the only thing this function may put on the own internal queue is a freshly built error.communication
+        sts = F.fn("ScxmlEventIOProcessor::send_to_session")
+        ex_calls = sts.calls("FsmExecutor::send_to_session")
+        ctx.exact("R15.1", "FsmExecutor::send_to_session calls in the processor's send_to_session", len(ex_calls), 1)
+        idx2 = hirq.order_index(sts)
+        for c in ex_calls:
+            a_sid = param_index(sts, c["a"][0]) == 2
+            a_ev = param_index(sts, hirq.peel(c["a"][1])) == 3
+            gts = guard_terms(sts, c)
+            only_executor = all(g[0] == "arm" and str(g[1]).endswith("Some") for g, pol, raw in gts) and len(gts) <= 1 and not hirq.enclosing_loops(sts, c)
+            early = [r for r in sts.nodes("ret") if idx2[id(r)] < idx2[id(c)]]
+            ctx.ob("R15.1", site_key(sts, "delivers (session_id, event) through the executor, unconditionally"), a_sid and a_ev and only_executor and not early, line_of(c),
+                   "session id is the parameter: %s; event is the parameter: %s; conditions on the way: %s; returns before it: %d" % (
+                       a_sid, a_ev, [(show(g), pol) for g, pol, raw in gts], len(early)))
+        for i, c in enumerate(sts.calls("enqueue_internal")):
+            arg = hirq.peel(c["a"][0], NO_T)
+            fresh = is_call(arg, "Event::error_communication")
+            ctx.ob("R15.1", site_key(sts, "own internal queue receives only error.communication", i), fresh, line_of(c), "enqueue_internal(%s)" % describe(arg))
     ctx.guard("R15.1", r1)
 
     # ------------------------------------------------------------------------------------------ R15.2
@@ -453,3 +475,39 @@ def run(ctx):
                     bad.append("%s: %s" % (p, f))
         ctx.ob("R15.4", "atomic operations other than fetch_add in the id-issuing functions", not bad, "", "%s" % (bad or "none"))
     ctx.guard("R15.4", r4)
+
+    # ------------------------------------------------------------------------------------------ R15.5
+    ctx.rule("R15.5", "a session can be addressed ('#_scxml_<id>', '#_<invokeid>', cancel) as soon as the call that starts it returns: "
+                      "ExecutorState.sessions.insert(session_id, ..) is executed by the starting thread, unconditionally, before the session "
+                      "thread is spawned (not inside the spawned closure); FsmExecutor::send_to_session looks the target up in that table")
+
+    def r5():
+        ins = [(fn, par) for fn, n, kind, meth, par in mutations_of_field(F, "ExecutorState", "sessions") if meth == "insert"]
+        ctx.exact("R15.5", "ExecutorState.sessions.insert sites", len(ins), 1)
+        for fn, c in ins:
+            owner = fn
+            top = F.fns.get(fn.parent_path) if fn.kind == "Closure" and fn.parent_path else fn
+            host = top if top is not None else fn
+            node = c
+            # the site as seen from the enclosing named function (closures are inline in its HIR)
+            if host is not fn:
+                same = [x for x in host.walk() if x.get("k") == "mcall" and x.get("m") == "insert" and x.get("s") == c.get("s")]
+                node = same[0] if same else None
+            in_cl = hirq.enclosing_closure(host, node) is not None if node is not None else True
+            spawns = [s for s in host.walk() if s.get("k") == "mcall" and s["m"] in ("spawn", "spawn_unchecked") and "thread" in (s.get("p") or "")] + \
+                     [s for s in host.calls("std::thread::spawn")]
+            idx5 = hirq.order_index(host)
+            before = node is not None and bool(spawns) and all(idx5[id(node)] < idx5[id(s)] for s in spawns)
+            gts = guard_terms(host, node) if node is not None else []
+            key_ok = node is not None and bool(node["a"]) and "session_id" in describe(node["a"][0])
+            ctx.ob("R15.5", site_key(host, "registered before the session thread is spawned"), (not in_cl) and before and not gts and
+                   host.path.endswith("start_fsm_with_data_and_finish_mode"), line_of(c),
+                   "in %s; inside a closure: %s; precedes %d spawn site(s): %s; conditions: %s" % (
+                       host.path, in_cl, len(spawns), before, [(show(g), p) for g, p, _ in gts]))
+        # positive control: the executor's send_to_session resolves the target through that table (directly or in a callee)
+        cg = F.callgraph
+        lk = F.fn("fsm_executor::FsmExecutor::send_to_session")
+        region = [F.fns[cg.body_of.get(p, p)] for p in cg.reachable({lk.path}) if cg.body_of.get(p, p) in F.fns and cg.body_of.get(p, p).startswith("fsm_executor::")]
+        reads = [n for g in region if g.hir is not None for n in g.walk() if n.get("k") == "field" and n["n"] == "sessions"]
+        ctx.floor("R15.5", "lookups of ExecutorState.sessions behind FsmExecutor::send_to_session", len(reads), 1)
+    ctx.guard("R15.5", r5)
